@@ -24,12 +24,15 @@ ASSUMPTIONS = [
     "device model: '<prefix> <list>' / '<prefix> add <list>' adds, 'undo|no <prefix> [remove] <list>' removes, 'undo <prefix> all' / "
     "'<prefix> none' / 'undo instance N' clears; lines of one set are a partition of it (no VLAN on two lines), as devices print them",
     "an empty set is represented by the absence of the line",
+    "huawei global VLANs (kind hw-global): on both sides every 'vlan N' block's VLAN is also in the 'vlan batch' lines (VRP adds it there "
+    "itself); 'undo vlan N' and 'undo vlan batch N' both delete the VLAN everywhere (tests/annet/test_patch/huawei_vlan_global_and_batch.yaml)",
 ]
 FLOORS = {}
 
 U6 = [2, 3, 4, 6, 7, 10]
 U8 = [2, 3, 4, 6, 7, 10, 11, 20]
 KINDS = ["hw-trunk", "hw-tagged", "hw-batch", "hw-instance", "cs-swtrunk", "nx-vlan"]
+GEN_KINDS = KINDS + ["hw-global", "hw-global"]
 
 
 # ------------------------------------------------------------------ own range helpers (not annet's)
@@ -178,8 +181,10 @@ def _vset(draw):
 
 @st.composite
 def _cases(draw):
-    kind = draw(st.sampled_from(KINDS))
+    kind = draw(st.sampled_from(GEN_KINDS))
     mode = draw(st.sampled_from(["device", "device", "file"]))
+    if kind == "hw-global":
+        return draw(_global_case(mode))
     base = draw(_vset())
     so = set(base) | draw(_vset())
     sn = (set(base) | draw(_vset())) - draw(_vset())
@@ -199,6 +204,23 @@ def _cases(draw):
     if kind == "hw-instance":
         items = [[sum(x, [])] if x else [] for x in items]
     return {"kind": kind, "mode": mode, "items": [items]}
+
+
+@st.composite
+def _global_case(draw, mode):
+    """huawei global VLANs: the set is declared by 'vlan batch' lines (1..3 lines) and by 'vlan N' blocks (with a name); a VLAN may be in both"""
+    uni = draw(st.sets(st.integers(2, 40), min_size=1, max_size=12))
+    def side():
+        blocks = sorted(draw(st.sets(st.sampled_from(sorted(uni)), max_size=4)))
+        # VRP invariant: declaring a 'vlan N' block puts N into the batch list too, so a block's VLAN is always in the batch lines
+        batch = sorted(set(draw(st.sets(st.sampled_from(sorted(uni)), max_size=len(uni)))) | set(blocks))
+        rs = ranges(batch)
+        k = draw(st.integers(1, 3))
+        cuts = sorted(draw(st.sets(st.integers(1, max(1, len(rs) - 1)), max_size=k - 1))) if len(rs) > 1 else []
+        b = [0] + cuts + [len(rs)]
+        lines = [rs[b[i]:b[i + 1]] for i in range(len(b) - 1) if rs[b[i]:b[i + 1]]]
+        return {"batch_lines": lines, "blocks": blocks}
+    return {"kind": "hw-global", "mode": mode, "old": side(), "new": side()}
 
 
 def strategy(tier):
@@ -222,7 +244,69 @@ def _helpers_roundtrip(s, labels):
             raise Violation("expand-collapse", f"cisco expand(collapse({sorted(s)}), tiny_ranges={tiny}) = {sorted(back)}", {})
 
 
+def _check_global(case):
+    """VRP semantics: 'vlan batch L' creates, 'undo vlan batch L' deletes, 'vlan N' (block header) creates N, 'undo vlan N' deletes N
+    everywhere (also from the batch list)."""
+    from annet.annlib.netdev.views.hardware import HardwareView
+    from annet.api import _diff_and_patch, _read_old_new_diff_patch
+    from vf.model import sut
+    hw = HardwareView(MODEL["hw"], "")
+    labels = ["kind:hw-global", "mode:" + case["mode"]]
+
+    def tree(side):
+        t = odict()
+        for l in side["batch_lines"]:
+            t["vlan batch " + fmt_hw(l)] = odict()
+        for n in side["blocks"]:
+            t["vlan %d" % n] = odict([("name v%d" % n, odict())])
+        return t
+
+    def vset(side):
+        return {v for l in side["batch_lines"] for a, b in l for v in range(a, b + 1)} | set(side["blocks"])
+    old, new = tree(case["old"]), tree(case["new"])
+    s_old, s_new = vset(case["old"]), vset(case["new"])
+    if case["mode"] == "device":
+        d, pt = _diff_and_patch(sut.Dev(hw), old, new, None, None, False)
+    else:
+        _, d, _, pt = _read_old_new_diff_patch(old, new, hw, False)
+    paths = list(sut.registry().match(hw).make_formatter(indent="").cmd_paths(pt).keys())
+    cmds = [p[0] for p in paths if len(p) == 1]
+    det = {"kind": "hw-global", "mode": case["mode"], "old_rows": list(old), "new_rows": list(new), "commands": cmds}
+    cur = set(s_old)
+    keep = s_old & s_new
+    import re as _re
+    for c in cmds:
+        m = _re.fullmatch(r"(undo )?vlan batch (.+)", c)
+        if m:
+            if m.group(1):
+                cur -= parse_list(m.group(2))
+            else:
+                cur |= parse_list(m.group(2))
+        else:
+            m = _re.fullmatch(r"(undo )?vlan (\d+)", c)
+            if not m:
+                raise Violation("foreign-command", f"unexpected command {c!r} for hw-global", det)
+            if m.group(1):
+                cur.discard(int(m.group(2)))
+            else:
+                cur.add(int(m.group(2)))
+        if not keep <= cur:
+            raise Violation("transient-loss", f"hw-global/{case['mode']}: after {c!r} VLANs {sorted(keep - cur)} present in both sets are gone "
+                            f"(old rows {list(old)}, new rows {list(new)})", det)
+    if cur != s_new:
+        raise Violation("wrong-final-set", f"hw-global/{case['mode']}: commands {cmds} turn {sorted(s_old)} into {sorted(cur)}, expected {sorted(s_new)}", det)
+    removed_blocks = [n for n in case["old"]["blocks"] if n not in case["new"]["blocks"]]
+    if any(n in s_new for n in removed_blocks):
+        labels.append("block-removed-vlan-stays")
+    if s_old and s_new and s_old != s_new and len(case["old"]["batch_lines"]) + len(case["new"]["batch_lines"]) >= 3:
+        labels.append("nontrivial-pair")
+    labels.append("n:pairs:1")
+    return labels
+
+
 def check(case):
+    if case["kind"] == "hw-global":
+        return _check_global(case)
     from annet.annlib.netdev.views.hardware import HardwareView
     from annet.api import _diff_and_patch, _read_old_new_diff_patch
     from vf.model import sut
